@@ -14,6 +14,21 @@ import genlayer as gl
 import sysrun
 
 
+def stream_line(S, stream):
+    """the loop model works in exact rationals; to reproduce the implementation's binary64 accumulation exactly it is fed the
+    increments of the float partial sums (they telescope to the float sums)"""
+    from fractions import Fraction as Fr
+
+    acc = 0.0
+    parts = []
+    for c, w, f in stream:
+        new = acc + w
+        inc = Fr(new) - Fr(acc)
+        parts.append(f"{c}:{inc.numerator}/{inc.denominator}:{'T' if f else 'F'}")
+        acc = new
+    return "\t".join(["sysloop", gl.fq(S), ",".join(parts)])
+
+
 def check(rep):
     coq = fw.coq_check("C13", [])
     quick = rep.tier == "quick"
@@ -72,10 +87,40 @@ def check(rep):
         stream = [(ci, w, f) for (ci, _), (w, f, _) in zip(r.calls, ys)]
         if r.error is not None:
             stream.append((r.calls[-1][0], 1.0, False))
-        lines.append("\t".join(["sysloop", gl.fq(r.S), ",".join(f"{c}:{gl.fq(w)}:{'T' if f else 'F'}" for c, w, f in stream)]))
+        lines.append(stream_line(r.S, stream))
         runs.append((ident, len(ys), "err" if r.error is not None else "stop"))
         if len(ys) > 1:
             distinct.add((text, seed))
+    # ---- exact landing: the caller-supplied system mass is the accumulated mass after j molecules of a replayed run (same seed):
+    # iteration must stop exactly there ("to the system mass or beyond")
+    landing = 0
+    for _ in range(12 if quick else 400):
+        text, smw, kinds, pct, S = sysrun.make_system(rnd, allow_open=False)
+        if "%|" not in text or any(("|" in part and "%" not in part) for part in text.split(".|")[1:]):
+            continue          # needs a percent-only specification so that the caller's mass decides
+        seed = rnd.randrange(1 << 30)
+        try:
+            r0 = sysrun.SysRun(text, 5000.0, seed)
+        except Exception:
+            continue
+        if r0.error is not None or len(r0.yields) < 3:
+            continue
+        j = rnd.randrange(1, min(len(r0.yields), 8))
+        acc = 0.0
+        for w, _, _ in r0.yields[:j]:
+            acc += w
+        try:
+            r1 = sysrun.SysRun(text, acc, seed)
+        except Exception:
+            continue
+        evaluations += 1
+        landing += 1
+        ident = {"text": text, "system_molweight": acc, "seed": seed, "landing_after": j}
+        if r1.error is None and len(r1.yields) != j:
+            rep.fail("oracle", f"system mass {acc} is reached exactly by the first {j} molecules, but {len(r1.yields)} were yielded", ident, expected=j, observed=len(r1.yields))
+        stream = [(ci, w, f) for (ci, _), (w, f, _) in zip(r1.calls, r1.yields)]
+        lines.append(stream_line(acc, stream))
+        runs.append((ident, len(r1.yields), "err" if r1.error is not None else "stop"))
     for (ident, ny, end), out in zip(runs, fw.run_driver(lines)):
         if out != f"{ny} {end}":
             rep.fail("correspondence", f"system loop: implementation yielded {ny} and ended with {end}, model: {out}", ident, expected=out, observed=f"{ny} {end}")
@@ -99,7 +144,7 @@ def check(rep):
             except Exception:
                 pass
     rep.coverage.update({"evaluations": evaluations + refusals, "distinct_nontrivial": len(distinct), "systems": evaluations, "non_generable_systems_tried": refusals,
-                         "molecules_yielded": sum(n for _, n, _ in runs), "systems_by_kind": hist, "loop_runs_validated_against_model": len(runs),
+                         "molecules_yielded": sum(n for _, n, _ in runs), "exact_landing_systems": landing, "systems_by_kind": hist, "loop_runs_validated_against_model": len(runs),
                          "rule": "systems of 1-4 components (small molecules, four polymer archetypes, one never-complete polymer), each with its own hetero atom, "
                                  "system masses 400-6000, specifications {percent + one absolute, all absolute, percent + caller mass}; distinct_nontrivial = "
                                  "distinct (system, seed) that yielded >= 2 molecules",
